@@ -19,7 +19,7 @@ TRUSTED_BASE = [
     'extraction: ExtrOcamlBasic only (bool, option, unit, list, prod, sumbool, sumor, andb, orb); N/Z/positive/nat stay Coq datatypes; OCaml 4.13.1',
     'validator/driver.ml (hand-written OCaml glue: line parsing, number/string conversion, printing)',
     'Go harness under /verif/harness (generators, drivers, in-memory carrier, probes), testing/synctest, the Go race detector',
-    'translators harness/paramscan (constants -> gen/Params.v) and harness/lockscan (access table -> gen/AccessTable.v)',
+    'translators harness/paramscan (constants -> gen/Params.v) and lockscan (go/packages + go/types: field access sites, held mutexes, channel publication -> gen/AccessTable.v)',
     'the Go code itself is modelled, not verified: the model is tied to it by the correspondence checks on sampled inputs',
 ]
 
@@ -130,6 +130,19 @@ def prepare(need_go=('unit',), quiet=False):
         rc, o, _ = run([os.path.join(BIN, 'paramscan'), REPO, os.path.join(COQ, 'gen', 'Params.v'),
                         os.path.join(COQ, 'gen', 'hashes.txt')])
         info['paramscan'] = o.strip()
+        # T2: lock-discipline table
+        LS = os.path.join(VERIF, 'lockscan')
+        if newer(tree_files(LS, ('.go', '.mod', '.sum')), os.path.join(BIN, 'lockscan')):
+            rc, o, _ = run([GO, 'build', '-o', os.path.join(BIN, 'lockscan'), '.'], cwd=LS, env=GOENV, timeout=900)
+            if rc != 0:
+                info['go_ok'] = False
+                info['go_log'] += o
+        lsenv = dict(GOENV, PATH='/opt/veriftools/go1.26.8/bin:' + os.environ.get('PATH', ''))
+        rc, o, _ = run([os.path.join(BIN, 'lockscan'), REPO, os.path.join(COQ, 'gen', 'AccessTable.v')], cwd=REPO, env=lsenv, timeout=600)
+        info['lockscan'] = o.strip()[-400:]
+        if rc != 0:
+            info['go_ok'] = False
+            info['go_log'] += '[lockscan] ' + o[-2000:]
         # Coq: full .vo build, keep going so that independent files still compile
         if not os.path.exists(os.path.join(COQ, 'Makefile')) or newer([os.path.join(COQ, '_CoqProject')], os.path.join(COQ, 'Makefile')):
             run(['coq_makefile', '-f', '_CoqProject', '-o', 'Makefile'], cwd=COQ, check=True)
@@ -184,6 +197,29 @@ def coq_props(pid):
     ok = (rc == 0)
     return {'theorems': theorems, 'compiled': ok, 'closed': closed if ok else 0, 'axioms': axioms,
             'log': o[-3000:] if not ok else '', 'wall_s': round(dt, 1)}
+
+
+def access_report():
+    """When the access-table theorem no longer checks: the site pairs that are not separated
+    by any recorded reason, printed by Coq from the regenerated table."""
+    q = os.path.join(WORK, 'access_query.v')
+    open(q, 'w').write('''From Coq Require Import List NArith String Bool.
+From GT Require Import Access.
+From GTgen Require Import AccessTable.
+Import ListNotations.
+Local Open Scope string_scope.
+Definition show (p : site * site) :=
+  (s_field (fst p), (s_fn (fst p), s_line (fst p), s_write (fst p)), (s_fn (snd p), s_line (snd p), s_write (snd p))).
+Eval vm_compute in map show (filter (fun p => N.leb (s_line (fst p)) (s_line (snd p))) (bad_pairs exemptions (access_table ++ user_sites))).
+Eval vm_compute in (acyclic lock_order, reacquire_count, lock_order).
+''')
+    rc, o, _ = run(['coqc', '-Q', 'theories', 'GT', '-Q', 'gen', 'GTgen', q], cwd=COQ, timeout=600)
+    for ext in ('.vo', '.glob', '.vok', '.vos'):
+        try:
+            os.remove(q[:-2] + ext)
+        except OSError:
+            pass
+    return ' '.join(o.split())[:3000]
 
 
 def coqchk(pid):
@@ -633,8 +669,11 @@ class Verdict:
             self.discharged += pr['closed']
             self.broken.append({'kind': 'axioms', 'what': 'props/%s.v depends on axioms' % self.pid, 'detail': pr['axioms']})
         else:
-            self.broken.append({'kind': 'proof', 'what': 'props/%s.v no longer compiles' % self.pid,
-                                'theorems': pr['theorems'], 'detail': pr['log'][-2500:]})
+            b = {'kind': 'proof', 'what': 'props/%s.v no longer compiles' % self.pid,
+                 'theorems': pr['theorems'], 'detail': pr['log'][-2500:]}
+            if self.pid == 'C15' and 'Access' in pr['log']:
+                b['unseparated_access_pairs'] = access_report()
+            self.broken.append(b)
         self.cov['print_assumptions'] = ('Closed under the global context x%d' % pr['closed']) if not pr['axioms'] else pr['axioms']
         self.cov['theorems'] = pr['theorems']
 
